@@ -141,10 +141,16 @@ def specChains (sc : SpecCfg) (k : Nat) (vals : List (Option Value)) (vis : List
   if sc.kind.threads && decide (act.length > 1) then specChainsFork sc k vals vis (act.zip caps)
   else specChainsSeq sc k vals vis (act.zip caps)
 
+theorem evalJoinForm_simple (cfg : EvalCfg) (k : Nat) (env : Env) (form : JoinForm) (elems : List Elem)
+    (h : form = .tuple ∨ form = .awaitCat ∨ ∃ j, form = .futJoin j false) :
+    evalJoinForm cfg k env form elems = (evalElems cfg k env elems).andThen fun vs => M.ret (mkTuple vs) := by
+  rcases h with rfl | rfl | ⟨j, rfl⟩ <;> rfl
+
 theorem evalStep_eq {c : Ctx} {names : List (Option String)} (ok : CtxOK c names) (σ : World)
     (parent : Option String) (k : Nat) (env : Env) (vals : List (Option Value)) (hinv : Inv c names k env vals)
     (s : StepCode) (hs : genStep c k = .ok s)
-    (hfirst : k = 0 → ∀ b ∈ c.activeIdx k, usesPrev ((specCfgOf σ parent names c).acts b k) = false) :
+    (hfirst : k = 0 → ∀ b ∈ c.activeIdx k, usesPrev ((specCfgOf σ parent names c).acts b k) = false)
+    (hnt : c.kind.isAsync = true → c.kind.isTry = false) :
     evalStep (cfgOf σ parent names) env s =
       (specCapsAll (specCfgOf σ parent names c) k (visibleSpec names vals) (c.activeIdx k)).andThen fun capss =>
       (specChains (specCfgOf σ parent names c) k vals (visibleSpec names vals) (c.activeIdx k) capss).andThen fun news =>
@@ -154,7 +160,14 @@ theorem evalStep_eq {c : Ctx} {names : List (Option String)} (ok : CtxOK c names
   have hvis := visible_eq ok hinv
   have hvisb : visible names (tbsEnv c k ++ env) = visibleSpec names vals := by
     rw [visible_append_internal _ _ _ (fun xv h => Var.internal_of_scratch (tbsEnv_scratch c k xv h)), hvis]
+  have hformS : s.form = .tuple ∨ s.form = .awaitCat ∨ ∃ j, s.form = .futJoin j false := by
+    by_cases ha : c.kind.isAsync = true
+    · have := hform.2 ha
+      rw [hnt ha] at this
+      exact Or.inr this
+    · exact Or.inl (hform.1 (by simpa using ha))
   unfold evalStep
+  simp only [evalJoinForm_simple _ _ _ _ _ hformS]
   have henvb : (s.tbs.map fun (ba : Nat × Nat) => (Var.j ba.1, Value.builder ba.2)).reverse = tbsEnv c k := by
     rw [htbs]; rfl
   simp only [henvb, hk, hdefs]
@@ -313,7 +326,8 @@ theorem evalStep_eq {c : Ctx} {names : List (Option String)} (ok : CtxOK c names
         simp [hsp]; omega
       · simp [hsp]
     by_cases ha : c.kind.isAsync = true
-    · rcases hform.2 ha with hf | ⟨j, hf⟩
+    · rw [hnt ha] at hform
+      rcases hform.2 ha with hf | ⟨j, hf⟩
       · simp only [hvis', hf, hsj, hthr, specChains, hnot, M.andThen_assoc, M.ret_andThen, Bool.false_eq_true, if_false]
       · simp only [hvis', hf, hsj, hthr, specChains, hnot, M.andThen_assoc, M.ret_andThen, Bool.false_eq_true, if_false]
     · have hf := hform.1 (by simpa using ha)
